@@ -54,6 +54,8 @@ pub enum Rec {
     ReadFld { th: u8, id: u64, w: u8, val: u8 },
     /// tracked struct created by the running body
     Made { th: u8, variant: u8, ident: u8, f: u8, g: u8, id: u64 },
+    /// `sp::specify` returned for this struct
+    Specified { th: u8, id: u64, val: u8 },
     /// value interned
     Interned { th: u8, ty: u8, data: u8, id: u64, in_query: bool },
     /// start of a history operation (index)
@@ -833,7 +835,7 @@ pub fn fb(db: &dyn QDb, n: Code) -> V {
 }
 
 #[cfg_attr(feature = "persist", salsa::tracked(persist))]
-#[cfg_attr(not(feature = "persist"), salsa::tracked)]
+#[cfg_attr(not(feature = "persist"), salsa::tracked(lru = 64))]
 pub fn mk<'db>(db: &'db dyn QDb, n: Code) -> MkOut<'db> {
     let cx = db.cx();
     let act = Act::enter(cx, F::Mk, n.as_id().as_bits());
@@ -866,6 +868,7 @@ pub fn mk<'db>(db: &'db dyn QDb, n: Code) -> MkOut<'db> {
                         let v = eval(&mut be, val);
                         if let TRef::A(ts) = t {
                             sp::specify(db, ts, V::new(v));
+                            cx.rec(Rec::Specified { th: cur_thread(), id: t.id_bits(), val: v });
                         }
                     }
                 }
@@ -1206,6 +1209,13 @@ impl Sess {
                 ev_lru::set_lru_capacity(&mut self.db, *c as usize);
                 Out::Unit
             }
+            #[cfg(not(feature = "persist"))]
+            Op::MkLruCap(c) => {
+                mk::set_lru_capacity(&mut self.db, *c as usize);
+                Out::Unit
+            }
+            #[cfg(feature = "persist")]
+            Op::MkLruCap(_) => panic!("MkLruCap is not available in the persist configuration"),
             Op::LruTrig => {
                 use salsa::Database;
                 self.db.trigger_lru_eviction();
